@@ -410,6 +410,7 @@ type netSim struct {
 	nodes    []*node // nil for faulty validators
 	log      []msg
 	extra    map[int]types.BlockID // block ids >= nIDs named by hostile lines
+	nodrain  bool                  // the op being applied carries drain=0
 }
 
 func (nt *netSim) correct(i int) bool { return i >= 0 && i < nt.w.n() && !nt.faulty[i] }
@@ -665,6 +666,9 @@ func (nd *node) deliverMsg(m msg, peer int) string {
 			sig[3] ^= 0x40
 		}
 		p.Signature = sig
+		if nd.net.nodrain {
+			return nd.node.HandleProposalNoDrain(p, peerID(peer))
+		}
 		return nd.node.HandleProposal(p, peerID(peer))
 	}
 	t, _ := vtype(m.t)
@@ -679,6 +683,9 @@ func (nd *node) deliverMsg(m msg, peer int) string {
 		sig[3] ^= 0x40
 	}
 	vote.Signature = sig
+	if nd.net.nodrain {
+		return nd.node.HandleVoteNoDrain(vote, peerID(peer))
+	}
 	return nd.node.HandleVote(vote, peerID(peer))
 }
 
@@ -707,6 +714,17 @@ func (nt *netSim) apply(op string) string {
 		return "bad-op"
 	}
 	rest := toks[1:]
+	// drain=0: the node handles the input only and leaves its own messages in its internal queue
+	nt.nodrain = false
+	if v, present := kvGet(rest, "drain"); present {
+		switch v {
+		case "0":
+			nt.nodrain = true
+		case "1":
+		default:
+			return "bad-op"
+		}
+	}
 	switch toks[0] {
 	case "deliver":
 		i, ok1 := natKey(rest, "node")
@@ -738,6 +756,9 @@ func (nt *netSim) apply(op string) string {
 					return "harness cannot realise a block for id " + strconv.Itoa(b)
 				}
 				return ""
+			}
+			if nt.nodrain {
+				return nd.node.HandleBlockPartNoDrain(1, rs.Round, nt.w.blocks[b].parts.GetPart(0), "peer1")
 			}
 			return nd.node.HandleBlockPart(1, rs.Round, nt.w.blocks[b].parts.GetPart(0), "peer1")
 		})
@@ -773,7 +794,12 @@ func (nt *netSim) apply(op string) string {
 		if !(r == 0 && st == cstypes.RoundStepNewHeight) && !nt.nodes[i].sched[[2]int{r, int(st)}] {
 			return "refused"
 		}
-		return nt.onNode(i, func(nd *node) string { return nd.node.HandleTimeout(1, int32(r), st) })
+		return nt.onNode(i, func(nd *node) string {
+			if nt.nodrain {
+				return nd.node.HandleTimeoutNoDrain(1, int32(r), st)
+			}
+			return nd.node.HandleTimeout(1, int32(r), st)
+		})
 	case "txs":
 		i, ok1 := natKey(rest, "node")
 		if !ok1 {
@@ -782,7 +808,26 @@ func (nt *netSim) apply(op string) string {
 		if !nt.correct(i) {
 			return "refused"
 		}
-		return nt.onNode(i, func(nd *node) string { return nd.node.HandleTxsAvailable() })
+		return nt.onNode(i, func(nd *node) string {
+			if nt.nodrain {
+				return nd.node.HandleTxsAvailableNoDrain()
+			}
+			return nd.node.HandleTxsAvailable()
+		})
+	case "own":
+		// the node hears the idx-th of its own queued messages (any one, at any time)
+		i, ok1 := natKey(rest, "node")
+		k, ok2 := natKey(rest, "idx")
+		if !(ok1 && ok2) {
+			return "bad-op"
+		}
+		if !nt.correct(i) {
+			return "refused"
+		}
+		return nt.onNode(i, func(nd *node) string {
+			p, _ := nd.node.HandleOwn(k)
+			return p
+		})
 	case "byz":
 		sender, ok1 := natKey(rest, "sender")
 		oks, _ := kvGet(rest, "ok")
@@ -1034,13 +1079,13 @@ func main() {
 		Exec:       execCase,
 		Oracle:     oracle,
 		NonTrivial: nonTrivial,
-		Rule:       "a network at height 1 of 4..7 validators (6 power configurations incl. one validator above 2/3): every correct validator is a REAL consensus.State (kvstore app, in-memory stores, own FilePV or MockPV signer, recording ticker, never started) driven synchronously through handleMsg/handleTimeout; the network is the log of every signed message: each proposal/vote a real node signs is appended in signing order, faulty validators (played by the generator) append anything under their own index, anybody appends messages whose signature does not verify; `deliver` feeds any logged message to any correct node via any peer, any number of times, in any order or never; block bodies (own block of each validator, 2 valid blocks with a tx, 1 invalid block, 1 id nobody has a block for) and VoteSetMaj23 claims are handed over at will; timeouts fire only if the node scheduled them. Generated adaptively against the live nodes: seeded schedulers with loss/duplication/reordering/partitions, equivocating proposals and votes, round skipping, votes shown to one side only, forged messages, claims; happy paths to decisions in rounds 0..3; scripted lock-then-partition-then-competing-decision-then-heal scenarios; scripted late-polka scenarios (a polka for a block or for nil of an EARLIER round that nobody saw in time is delivered after correct nodes locked in a later round, one correct node has already decided the locked block, then a faulty proposer offers and votes for a competing block); scripted locked-pol scenarios (a node locked in round 0 whose round-1 polka for the same block completes only after it left round 1, then a faulty proposer offers another block with proof-of-lock-round claims of every kind while another correct node holds the round-0 commit); forged-slots (one faulty validator sprays votes whose slot, address and signer do not belong together - every combination incl. replayed signatures of correct validators - repeatedly and to different nodes; the oracle counts distinct SIGNERS); claim-replay (an equivocating vote that a VoteSetMaj23 claim makes the vote set track, redelivered many times through different peers); unjudged runs with >= 1/3 faulty power in which the faulty validators make two correct nodes decide differently (shows the oracle can fire). After every op the moved node's round, step, lock, valid block, proposal, parts, commit round, proposer, every vote set's sums/majority/buckets, every signature with its log position, scheduled timeout, decision and panic are compared with the Lean model Tmv.Net. Non-trivial = some correct node signed a block precommit or decided; distinct by hash of the op list",
+		Rule:       "a network at height 1 of 4..7 validators (6 power configurations incl. one validator above 2/3): every correct validator is a REAL consensus.State (kvstore app, in-memory stores, own FilePV or MockPV signer, recording ticker, never started) driven synchronously through handleMsg/handleTimeout; the network is the log of every signed message: each proposal/vote a real node signs is appended in signing order, faulty validators (played by the generator) append anything under their own index, anybody appends messages whose signature does not verify; `deliver` feeds any logged message to any correct node via any peer, any number of times, in any order or never; block bodies (own block of each validator, 2 valid blocks with a tx, 1 invalid block, 1 id nobody has a block for) and VoteSetMaj23 claims are handed over at will; timeouts fire only if the node scheduled them. Generated adaptively against the live nodes: seeded schedulers with loss/duplication/reordering/partitions, equivocating proposals and votes, round skipping, votes shown to one side only, forged messages, claims; happy paths to decisions in rounds 0..3; scripted lock-then-partition-then-competing-decision-then-heal scenarios; scripted late-polka scenarios (a polka for a block or for nil of an EARLIER round that nobody saw in time is delivered after correct nodes locked in a later round, one correct node has already decided the locked block, then a faulty proposer offers and votes for a competing block); scripted locked-pol scenarios (a node locked in round 0 whose round-1 polka for the same block completes only after it left round 1, then a faulty proposer offers another block with proof-of-lock-round claims of every kind while another correct node holds the round-0 commit); forged-slots (one faulty validator sprays votes whose slot, address and signer do not belong together - every combination incl. replayed signatures of correct validators - repeatedly and to different nodes; the oracle counts distinct SIGNERS); claim-replay (an equivocating vote that a VoteSetMaj23 claim makes the vote set track, redelivered many times through different peers); own-delay (happy and scheduler runs in which 30..100% of the node ops leave the node's own proposal/part/votes queued and `own` ops hand them over late and out of order); unjudged runs with >= 1/3 faulty power in which the faulty validators make two correct nodes decide differently (shows the oracle can fire). After every op the moved node's round, step, lock, valid block, proposal, parts, commit round, proposer, every vote set's sums/majority/buckets, every signature with its log position, scheduled timeout, decision and panic are compared with the Lean model Tmv.Net. Non-trivial = some correct node signed a block precommit or decided; distinct by hash of the op list",
 		Assumptions: []string{
 			"one height; a block id stands for (hash, part-set header) of a one-part block; block validity is that of the real BlockExecutor.ValidateBlock on the real blocks",
 			"signatures ideal: a logged message is re-signed at delivery time with the known key of its sender and a fixed timestamp (or with a corrupted signature when ok=0); a correct validator's key signs only inside its own node",
 			"faulty validators are played by the generator; reactor gossip is replaced by the log and explicit deliver/block/claim ops (no gossip data structures, no WAL, no evidence pool)",
 			"timeouts fire only if the node scheduled them (or the round-0 NewHeight timeout that OnStart schedules), any time later, any number of times",
-			"own messages are processed in FIFO order right after the input that caused them (the 1000-slot internal queue never overflows)",
+			"no order is assumed for a node's own messages: by default an op drains the node's internal queue in FIFO order (what receiveRoutine does when nothing else is pending), with drain=0 the own messages stay queued and `own node=i idx=k` hands the node any one of them at any later time (kind own-delay; real nodes through consensus/verif_export_c01.go) - the reordering that receiveRoutine's select and sendInternalMessage's goroutine fallback (queue full) can produce; the literal 1000-slot overflow is not provoked",
 			"proposer rotation enters the model as the table of proposers after k priority increments; the harness checks for every power configuration used that IncrementProposerPriority(k) equals k single increments (cf. C08)",
 			"agreement is judged only when the faulty validators hold less than 1/3 of the power (judge=1); with more, disagreements are counted, not reported",
 		},
